@@ -236,3 +236,29 @@ Proof.
   - rewrite shifted_in in E by lia. exact E.
   - rewrite shifted_lt in E by lia. exact E.
 Qed.
+
+Lemma py_clamp_id : forall n x, 0 <= x <= n -> py_clamp n x = x.
+Proof.
+  intros n x H. unfold py_clamp. destruct (x <? 0) eqn:E; [apply Z.ltb_lt in E; lia|lia].
+Qed.
+
+(* the same on testcase objects: deleting a window in two adjacent steps or in one step gives
+   the same object, field for field *)
+Lemma rmslice_adjacent : forall t lo mid w t1 t2 t3, wf t ->
+  0 <= lo <= mid -> 0 <= w -> mid + w <= tc_len t ->
+  rmslice t lo mid = Ok t1 -> rmslice t1 lo (lo + w) = Ok t2 ->
+  rmslice t lo (mid + w) = Ok t3 -> t2 = t3.
+Proof.
+  intros t lo mid w t1 t2 t3 Hwf Hlm Hw Hn H1 H2 H3.
+  destruct (rmslice_spec t lo mid t1 Hwf H1) as (Hwf1 & Hz1 & Hb1 & Ha1 & Hl1).
+  { rewrite !py_clamp_id by lia. lia. }
+  rewrite !py_clamp_id in Hz1, Hl1 by lia.
+  destruct (rmslice_spec t1 lo (lo + w) t2 Hwf1 H2) as (Hwf2 & Hz2 & Hb2 & Ha2 & _).
+  { rewrite !py_clamp_id by lia. lia. }
+  rewrite !py_clamp_id in Hz2 by lia.
+  destruct (rmslice_spec t lo (mid + w) t3 Hwf H3) as (Hwf3 & Hz3 & Hb3 & Ha3 & _).
+  { rewrite !py_clamp_id by lia. lia. }
+  rewrite !py_clamp_id in Hz3 by lia.
+  apply tcase_ext; try assumption; try congruence.
+  rewrite Hz2, Hz1, Hz3. apply spec_rm_adjacent; lia.
+Qed.
